@@ -56,28 +56,38 @@ def gen_case(rng, maxlen=6, fn=None):
         sb = list(sa)
         if sb and rng.random() < 0.5:
             sb[rng.randrange(len(sb))] = rng.choice(alpha)
-    fn = fn if fn is not None else rng.choice([0, 0, 0, 1, 1, 2, 3, 4, 4])
+    fn = fn if fn is not None else rng.choice([0, 0, 0, 1, 1, 2, 3, 4, 4, 6, 6])
     mode = rng.choice(MODES)
     proset = rng.choice(["AX", "AXT", "ABCLMNXYZT_", "AXT_", "CV"])
     pa = [rng.choice(proset) for _ in sa]
     pb = [rng.choice(proset) for _ in sb]
-    rch = rng.choice(["T_", "T_", "T", ""]) if fn in (0, 1, 4) else ""
+    rch = rng.choice(["T_", "T_", "T", ""]) if fn in (0, 1, 4, 6) else ""
     sec = rng.random() < 0.5
     batch = []
-    if fn == 4:      # companions in the same align_pairs call: other pairs, with / without restricted characters
+    if fn in (4, 6):      # companions in the same align_pairs / align_pairwise call: other pairs, with / without restricted characters
         for _ in range(rng.randint(1, 2)):
             oa = [rng.choice(alpha) for _ in range(rng.randint(1, 4))]
             ob = [rng.choice(alpha) for _ in range(rng.randint(1, 4))]
             ps = rng.choice(["AX", "AXT_", "T_"])
             batch.append({"seqA": oa, "seqB": ob, "proA": [rng.choice(ps) for _ in oa], "proB": [rng.choice(ps) for _ in ob],
                           "wA": [rng.choice(WEIGHTS) for _ in oa], "wB": [rng.choice(WEIGHTS) for _ in ob]})
+    scorer = gen_scorer(rng, alpha)
+    if fn == 6:
+        if rng.random() < 0.3:      # same class sequence, different prosody
+            sb = list(sa)
+            pb = [rng.choice(proset) for _ in sb]
+        # align_pairwise divides by simA + simB for every pair of the batch: keep all self-scores positive
+        for a in alpha:
+            if scorer[a, a] <= 0:
+                scorer[a, a] = F(rng.randint(1, 6), rng.choice([1, 2]))
+        sec = bool(set(rch) & set(pa + pb + [c for o in batch for c in o["proA"]]))
     return {
         "batch": batch, "batch_pos": rng.randint(0, len(batch)),
         "fn": fn, "mode": mode, "sec": sec,
         "seqA": sa, "seqB": sb, "proA": pa, "proB": pb,
         "wA": [rng.choice(WEIGHTS) for _ in sa], "wB": [rng.choice(WEIGHTS) for _ in sb],
         "gop": rng.choice(GOPS), "scale": rng.choice(SCALES), "factor": rng.choice(FACTORS),
-        "scorer": gen_scorer(rng, alpha), "r": rch, "alpha": alpha,
+        "scorer": scorer, "r": rch, "alpha": alpha,
     }
 
 
@@ -139,11 +149,14 @@ def run_impl(case):
         if case["sec"]:
             args.append(case["r"])
         out = f(*args)
+        out = f(*args)           # same argument objects again: the second result is the one compared
     elif case["fn"] == 1:
         # guard of the distance formula: selfA + selfB = 0 makes the Python divide by zero
         denom = sum((1 + case["factor"]) * case["scorer"][x, x] for x in sa + sb)
-        out = calign.align_pair(sa, sb, [float(w) for w in case["wA"]], [float(w) for w in case["wB"]], pa, pb,
-                                float(case["gop"]), scale, factor, scorer, mode, case["r"], 2 if denom else 0)
+        fwA, fwB = [float(w) for w in case["wA"]], [float(w) for w in case["wB"]]
+        for _ in range(2):       # same argument objects twice: the second result is the one compared
+            out = calign.align_pair(sa, sb, fwA, fwB, pa, pb,
+                                    float(case["gop"]), scale, factor, scorer, mode, case["r"], 2 if denom else 0)
         res["dist"] = F(out[3]) if denom else None
     elif case["fn"] == 4:
         denom = sum((1 + case["factor"]) * case["scorer"][x, x] for x in sa + sb)
@@ -154,13 +167,24 @@ def run_impl(case):
         pairs = list(case["batch"])
         pos = case["batch_pos"]
         pairs.insert(pos, me)
-        outs = calign.align_pairs(
-            [(list(q["seqA"]), list(q["seqB"])) for q in pairs],
-            [([float(w) for w in q["wA"]], [float(w) for w in q["wB"]]) for q in pairs],
-            [("".join(q["proA"]), "".join(q["proB"])) for q in pairs],
-            float(case["gop"]), scale, factor, scorer, mode, case["r"], 2 if denom else 0)
+        a_seqs = [(list(q["seqA"]), list(q["seqB"])) for q in pairs]
+        a_gops = [([float(w) for w in q["wA"]], [float(w) for w in q["wB"]]) for q in pairs]
+        a_pros = [("".join(q["proA"]), "".join(q["proB"])) for q in pairs]
+        for _ in range(2):       # the way Pairwise re-uses self.classes / self.weights between align() calls
+            outs = calign.align_pairs(a_seqs, a_gops, a_pros,
+                                      float(case["gop"]), scale, factor, scorer, mode, case["r"], 2 if denom else 0)
         out = outs[pos]
         res["dist"] = F(out[3]) if denom else None
+    elif case["fn"] == 6:
+        # calign.align_pairwise: all pairs of a list of sequences; this case is the pair (0, 1) = output entry 1;
+        # the secondary twins are selected by a restricted character ANYWHERE in the batch
+        seqs = [sa, sb] + [list(o["seqA"]) for o in case["batch"]]
+        pros = [pa, pb] + ["".join(o["proA"]) for o in case["batch"]]
+        gops = [[float(w) for w in case["wA"]], [float(w) for w in case["wB"]]] + \
+               [[float(w) for w in o["wA"]] for o in case["batch"]]
+        outs = calign.align_pairwise(seqs, gops, pros, float(case["gop"]), scale, factor, scorer, case["r"], mode)
+        out = outs[1]
+        res["dist"] = F(out[3])
     elif case["fn"] == 2:
         f = getattr(talign, TFN[mode])
         if mode == "dialign":
@@ -191,6 +215,8 @@ def cin_lit(case):
     fn = case["fn"]
     if fn == 4:
         fn = 1
+    if fn == 6:
+        fn = 0
     if fn == 0:
         gA = [case["gop"] * w for w in case["wA"]]
         gB = [case["gop"] * w for w in case["wB"]]
@@ -206,7 +232,8 @@ def cin_lit(case):
 
 def render(case, res):
     return L.record("align_case", [
-        cin_lit(case), L.nat(1 if case["fn"] == 4 else case["fn"]), COQ_MODE[case["mode"]], L.b(case["sec"]), L.q(case["gop"]),
+        cin_lit(case), L.nat({4: 1, 6: 4}.get(case["fn"], case["fn"])), COQ_MODE[case["mode"]], L.b(case["sec"]),
+        L.q(case["gop"]),
         result_lit(res["out"]), L.opt(res.get("dist"), L.q)])
 
 
